@@ -36,6 +36,16 @@ Checks(e) ==
     <<"segmentation-independent", \A i, j \in 1..Len(e.st) :
           e.st[i].ok = e.st[j].ok /\ (e.st[i].ok => SameReq(e.st[i], e.st[j]))>> }
   \cup
+  (IF Has(e, "rr") /\ e.denv.ok THEN
+    { <<"client-accepts-only-replies", /\ (e.rr.ec = "none") = (ReplyClass(e.denv.ty) = "none")
+                                       /\ (e.ic.ec = "none") = (ReplyClass(e.denv.ty) = "none")
+                                       /\ ReplyClass(e.denv.ty) = "err" => (e.rr.ec = "err" /\ e.ic.ec = "err")>>,
+      <<"client-returns-the-reply", e.denv.ty = 2 => (e.rr.seq = e.denv.seq /\ e.rr.body = e.denv.body /\ e.ic.body = e.denv.body)>>,
+      <<"client-sends-a-call", e.ic.sent = ClientCall(<<109>>, ReplyBody)>>,
+      <<"plugin-server-echoes", /\ e.is.ok /\ e.is.reply = ServerReplyHeader(e.denv.name, e.denv.seq, FALSE) \o Enc(ReplyBody)
+                                /\ e.isf.ok /\ IsPrefix(ServerReplyHeader(e.denv.name, e.denv.seq, TRUE), e.isf.reply)>> }
+   ELSE {})
+  \cup
   (IF Has(e, "env") /\ e.intact THEN
     { <<"encode-exact", e.req = EncEnv(e.env)>>,
       <<"decode-enveloped-roundtrip", (IsEnv(e) /\ NameOK(e)) =>
